@@ -6,4 +6,3 @@ from ..core import modules_for
 def run(ctx):
     q = ctx.tier == "quick"
     run_common(ctx, "C11", modules_for("C11"), stride=2 if q else 1, l1_scripts=250 if q else 2500)
-    run_common(ctx, "C11", ["SfProps.C11", "SfProps.C04Caf", "SfProps.C04W64", "SfProps.C04Aiff", "SfProps.C04Avr", "SfProps.C04Ircam", "SfProps.C04Paf", "SfProps.C04Svx"], stride=2 if q else 1, l1_scripts=250 if q else 2500)
